@@ -771,4 +771,119 @@ class EarlyDates(Sub):
         return None
 
 
-SUBS = [ScalarPairs(), ArrayScalar(), ArrayArray(), Mismatch(), Nested(), LiteralArrays(), Concat(), EarlyDates()]
+EXACT_POOL = [1.0, 0, 1, 2.0, -1, 2, 3, 7, 0.0, True, False, None, '3', '-12', '+5', '0', '007',
+              2 ** 53, 2 ** 53 + 1, 10 ** 17 + 1, -(2 ** 53 + 1), '9007199254740993']
+
+
+def exact_int(v):
+    """the integer a value stands for under + - *, or None when it is not integer-typed"""
+    if v is None:
+        return 0
+    if isinstance(v, bool):
+        return 1 if v else 0
+    if isinstance(v, int):
+        return v
+    if isinstance(v, str):
+        return int(v)
+    return None
+
+
+class ExactIntegers(Sub):
+    name = 'c06.exact_integers'
+    rule = ('all ordered pairs over 22 operands (integers incl. adjacent ones above 2^53, logicals, blank, text spelling an '
+            'integer with sign / leading zeros, and the floats 1.0, 2.0, 0.0) under + - *: when both operands are integer-'
+            'typed the result is the EXACT integer (no detour through a double) and (a op b)&"" is its digit string; with a '
+            'float operand the numeric value is checked; non-trivial = both operands integer-typed')
+    min_cases = 400
+    min_nontrivial = 300
+
+    def cases(self, tier, unit):
+        for i in range(len(EXACT_POOL)):
+            for j in range(len(EXACT_POOL)):
+                yield [i, j]
+
+    def check(self, env, case):
+        a, b = EXACT_POOL[case[0]], EXACT_POOL[case[1]]
+        ia, ib = exact_int(a), exact_int(b)
+        for op, fn in (('+', lambda x, y: x + y), ('-', lambda x, y: x - y), ('*', lambda x, y: x * y)):
+            raw = env.ev('xa%sxb' % op, vars={'xa': a, 'xb': b})
+            got = env.out(raw)
+            where = 'xa%sxb with xa=%r, xb=%r' % (op, a, b)
+            if ia is not None and ib is not None:
+                env.nt()
+                want = fn(ia, ib)
+                val = raw.get('result') if isinstance(raw, dict) else None
+                if isinstance(val, bool) or not isinstance(val, (int, float)) or Fraction(val) != want:
+                    return fail('%s = %r; expected exactly %d' % (where, got, want), want, got)
+                txt = env.evo('(xa%sxb)&""' % op, vars={'xa': a, 'xb': b})
+                if txt != ['v', str(want)]:
+                    return fail('(%s)&"" = %r; the result is the integer %d, expected its digits' % (where, txt, want),
+                                str(want), txt)
+            else:
+                fa = float(a) if ia is None else ia
+                fb = float(b) if ib is None else ib
+                want = fn(fa, fb)
+                if got[0] != 'v' or not isnum(got[1]) or not close(got[1], want):
+                    return fail('%s = %r; expected %r' % (where, got, want), want, got)
+        return None
+
+
+REUSE_ELEMS = [2, 0.5, 3, -1]
+REUSE_FORMS = [('(xa+xb)-xb', 'a'), ('(xa*xb)/xb', 'a'), ('xb+(xa-xb)', 'a'), ('(xb+xa)-xa', 'b'), ('xa+xb-xb+xb-xb', 'a'),
+               ('(xa-xb)+(xb-xa)', 'z'), ('xb/xb*xa', 'a')]
+
+
+class ArrayReuse(Sub):
+    name = 'c06.array_reuse'
+    rule = ('formulas that use the same host array twice - (xa+xb)-xb, (xa*xb)/xb, ... - over all equal-length numeric '
+            'arrays of length 1..3 (4 element values), as host lists and nested 2x2: element-wise the result is the other '
+            'operand again (an operation that writes into an operand changes the second use); non-trivial = all')
+    min_cases = 50
+    min_nontrivial = 50
+
+    def cases(self, tier, unit):
+        for n in (1, 2, 3):
+            for a in itertools.product(range(len(REUSE_ELEMS)), repeat=n):
+                yield [list(a)]
+
+    def check(self, env, case):
+        env.nt()
+        n = len(case[0])
+        a = [REUSE_ELEMS[i] for i in case[0]]
+        for b_idx in itertools.product(range(len(REUSE_ELEMS)), repeat=n):
+            b = [REUSE_ELEMS[i] for i in b_idx]
+            for nested in (False, True):
+                if nested and n != 2:
+                    continue
+                for form, which in REUSE_FORMS:
+                    xa = [list(a), list(reversed(a))] if nested else list(a)
+                    xb = [list(b), list(b)] if nested else list(b)
+                    want = {'a': xa, 'b': xb, 'z': None}[which]
+                    keep_a, keep_b = enc(xa), enc(xb)
+                    out = env.evo(form, vars={'xa': xa, 'xb': xb})
+                    flat_w = flatten_json(keep_a if which == 'a' else keep_b if which == 'b' else None, n, nested)
+                    got = flatten_json(out[1], n, nested) if out[0] == 'v' else None
+                    ok = got is not None and len(got) == len(flat_w) and all(isnum(g) and close(g, w) for g, w in zip(got, flat_w))
+                    if not ok:
+                        return fail('%s with xa=%r, xb=%r = %r; element-wise it should be %r' % (
+                            form, keep_a, keep_b, out, flat_w), flat_w, out)
+        return None
+
+
+def flatten_json(v, n, nested):
+    if v is None:
+        return [0] * (n * 2 if nested else n)
+    out = []
+
+    def rec(x):
+        if isinstance(x, list):
+            for y in x:
+                rec(y)
+        else:
+            out.append(x)
+    rec(v)
+    return out
+
+
+SUBS = [ScalarPairs(), ArrayScalar(), ArrayArray(), Mismatch(), Nested(), LiteralArrays(), Concat(), EarlyDates(),
+        ExactIntegers(), ArrayReuse()]
